@@ -65,7 +65,8 @@ class _RedisConsumer(ConsumerT):
         while self.queue.qsize() > 0:
             key, _, _ = self.queue.get_nowait()
             rejects.append(self.broker.reject(key))
-        await asyncio.gather(*rejects)
+        # the messages have already left the local queue: return them even if finish() gets cancelled
+        await asyncio.shield(asyncio.gather(*rejects))
 
     async def consume(self) -> tuple[RoutingKeyT, str, ParametersT]:
         return await self.queue.get()
